@@ -15,7 +15,7 @@ import sim as S
 import streamkit as K
 import dimkit as Q
 
-FIELD_UNITS = {}   # field index -> unit of the Quantity fields, learned from the constructor's returning paths
+FIELD_UNITS = {}   # leaf name -> unit of the Quantity fields, learned from the constructor's returning paths
 PIECES = ["BeforeStart", "InitialAcceleration", "ConstantVelocity", "EndAcceleration", "Complete"]
 KINDS = ["Position", "Velocity", "Acceleration"]
 
@@ -48,31 +48,49 @@ def mp_ty(prog):
     return {"k": "adt", "did": a["did"], "name": "MotionProfile", "args": []}
 
 
+def time_symbol_names(sim, prog):
+    """names of the three phase-boundary symbols of a symbolic profile, in declaration order (wherever the profile keeps them:
+    three fields, an array, a private sub-struct)"""
+    import layout
+    out = []
+
+    def leaf(dotted, t):
+        if is_adt(t, "Time"):
+            out.append("self.%s.0" % dotted)
+        return None
+    layout.build_symbolic(sim, mp_ty(prog), leaf, stop=("Time", "Quantity", "Command"))
+    if len(out) != 3:
+        raise AnchorMissing("three Time fields of MotionProfile")
+    return out
+
+
 def setup(sim, prog, ranks, kind):
+    import layout
     st = S.State()
     ty = mp_ty(prog)
-    sv = sim.expand(st, Sym("self", ty))
-    names = [n for n, _ in sim.adt_fields(ty)]
-    fs = list(sv.fields)
-    tfields = [n for n, t in sim.adt_fields(ty) if is_adt(t, "Time")]
-    if len(tfields) != 3:
-        raise AnchorMissing("three Time fields of MotionProfile")
-    cty = [t for n, t in sim.adt_fields(ty) if is_adt(t, "Command")]
-    ci = [i for i, (n, t) in enumerate(sim.adt_fields(ty)) if is_adt(t, "Command")]
-    if len(ci) != 1:
+    tnames = time_symbol_names(sim, prog)
+    cmds = []
+
+    def leaf(dotted, t):
+        if is_adt(t, "Time"):
+            return Struct(t, (Sym("self.%s.0" % dotted, prim("i64")),))
+        if is_adt(t, "Command"):
+            cmds.append(dotted)
+            return sim.mk_enum(t, kind, [Sym("end", prim("f32"))])
+        if is_adt(t, "Quantity") and dotted in FIELD_UNITS:
+            return Struct(t, (Sym("self.%s.value" % dotted, prim("f32")), Q.unit_value(sim, prog, *FIELD_UNITS[dotted])))
+        return None
+    sv = layout.build_symbolic(sim, ty, leaf, stop=("Time", "Quantity", "Command"))
+    if len(cmds) != 1:
         raise AnchorMissing("end command field of MotionProfile")
-    fs[ci[0]] = sim.mk_enum(cty[0], kind, [Sym("end", prim("f32"))])
-    for i, (n, t) in enumerate(sim.adt_fields(ty)):
-        if is_adt(t, "Quantity") and i in FIELD_UNITS:
-            fs[i] = Struct(t, (Sym("self.%s.value" % n, prim("f32")), Q.unit_value(sim, prog, *FIELD_UNITS[i])))
-    sv = Struct(ty, fs)
+    names = [n for n, _ in sim.adt_fields(ty)]
     oid = st.new_obj("self", sv)
     st.labels[oid] = "self"
-    atoms = [Const(0, prim("i64"))] + [Sym("self.%s.0" % n, prim("i64")) for n in tfields] + [Sym("t.0", prim("i64"))]
+    atoms = [Const(0, prim("i64"))] + [Sym(n, prim("i64")) for n in tnames] + [Sym("t.0", prim("i64"))]
     for i in range(5):
         for j in range(i + 1, 5):
             sim.assume_int_rel(st, atoms[i], atoms[j], S.rel_of(ranks[i], ranks[j]))
-    tty = [t for n, t in sim.adt_fields(ty) if is_adt(t, "Time")][0]
+    tty = {"k": "adt", "did": prog.adt_by_name("Time")["did"], "name": "Time", "args": []}
     return st, oid, Sym("t", tty), names
 
 
@@ -219,7 +237,8 @@ def check_constructor(chk, prog, sim):
         nret += 1
         stl = leaf.state
         v = sim.final_value(stl, leaf.value)
-        fields = dict(zip([n for n, _ in sim.adt_fields(mp_ty(prog))], v.fields))
+        import layout
+        fields = dict(layout.value_leaves(sim, v, stop=("Time", "Quantity", "Command")))
         times = [(n, fv) for n, fv in fields.items() if isinstance(fv, Struct) and fv.ty and fv.ty.get("name") == "Time"]
         if len(times) != 3:
             chk.violation("C06.ctor", key + ":shape", "constructor result does not carry three Time fields: %r" % (v,))
@@ -257,7 +276,7 @@ def check_constructor(chk, prog, sim):
                 chk.violation("C06.ctor", key + ":assert:" + nm, "a returning path of the constructor has not asserted %s >= 0 (path atoms: %s)" % (nm, sorted(nonneg)[:4]),
                               fn=fn["pretty"], file=loc(fn["span"]))
                 ok = False
-        for i, fv in enumerate(v.fields):
+        for i, fv in fields.items():
             if isinstance(fv, Struct) and fv.ty and fv.ty.get("name") == "Quantity":
                 ex = Q.unit_exps(sim, stl, fv.fields[1])
                 if ex and all(isinstance(e, Const) for e in ex):
